@@ -23,7 +23,7 @@ RULE = ("seeded bench histories: gv reconfigurations (fs, wavelength), then EDFA
         "bundle = zero + one-hot(k) + impulse + stripped-noise same-seed twin + BW-vs-BPF twin, with rng_reseed / "
         "freeze faults and non-optical inputs in between; distinct = (n_pol, noise kind, G class, BW class, fs "
         "decade, wavelength) signatures in runs with >=3 successful bundles")
-WALL = {"quick": 120, "thorough": 300, "replay": 120}
+WALL = {"quick": 300, "thorough": 900, "replay": 600}
 BLOCK = {"quick": 100000, "thorough": 4096}
 SELFTEST = {"quick": 16, "thorough": 100}
 COMPONENTS_REAL = ["opticomlib.devices.EDFA", "opticomlib.devices.BPF", "opticomlib.typing.optical_signal/gv",
@@ -57,6 +57,8 @@ def generate(seed, tier):
         if k == "edfa":
             op = {"op": "edfa"}
             op.update(gen_field(rng))
+            if rng.random() < 0.004:
+                op["n"] = rng.choice([(1 << 17) + 5, (1 << 20) + 1])     # long records
             op.update({"G": rng.choice([0, 0.0, 20, 40, rng.uniform(0, 40)]), "NF": rng.choice([3, 5.0, rng.uniform(3, 10)]),
                        "BWf": rng.choice([None, None, rng.uniform(0.05, 0.45), rng.uniform(0.05, 0.45)]),
                        "BWabs": rng.choice([None, 1e9, 4e9, 10e9]), "iso": rng.random() < 0.4, "seed": rng.getrandbits(31),
